@@ -1,7 +1,7 @@
 """Ring units for C19 kernels that are decided per INSTANCE (a fixed length, all element values symbolic): the real function is
 executed on a vector of k symbols, every zero / non-zero pattern is a separate path, and the result is compared exactly.
 For a fixed length this covers every input; the bound is on the LENGTH only (stated in the obligation text)."""
-from vlib.ring import (Unit, Sym, VArr, VIter, VTuple, VOpaque, VStruct, VOk, UNIT, as_poly as P, sym, OutsideFragment, canon)
+from vlib.ring import (Unit, Sym, VArr, VIter, VTuple, VOpaque, VStruct, VOk, UNIT, as_poly as P, sym, OutsideFragment, canon, inv_sym)
 from vlib.poly import Poly, C, S
 
 import os
@@ -40,7 +40,7 @@ def c_batch_inversion(k):
         for i in range(k):
             if not zero[i]:
                 T = T * P(Sym(f"v{i}"))
-        inv = P(Sym(f"inv({canon(T)})"))
+        inv = P(inv_sym(T))
         for i in range(k):
             if not zero[i]:
                 rest = P(1)
@@ -487,3 +487,217 @@ for (n_, d_, m_) in [(4, 1, 4), (4, 3, 4), (4, 2, 3), (4, 4, 4), (8, 5, 8)]:
              [("self", mk_domain(n_)), ("poly_degree", (lambda d_=d_: d_)), ("evaluations", mk_arr("e", m_))],
              c_matches_vanishing(n_, d_), lambda res, args, ctx: {"result": res, "exits": list(ctx.exits)}, consts={"GENERATOR": Sym("g")}, path_dependent=True)
     u.extra_contracts = DOMC
+
+
+# ---- closed-form Lagrange evaluations: EvaluationDomain::evaluate_all_lagrange_coefficients(tau), instances n = 1, 2, 4, 8
+def c_bi_nonzero(it, recv, a):
+    """batch_inversion by CONTRACT (unit kernels.batch_inversion) on entries that cannot be zero here: the entries are tau - w^i and this
+    branch is only reached when tau^n != 1, i.e. tau is not an n-th root of unity (MATHEMATICAL FACT used: (w^i)^n == 1).  Product form."""
+    v = a[0]
+    items = v.items if hasattr(v, "items") else None
+    if items is None:
+        raise OutsideFragment("batch_inversion on a non-concrete vector")
+    vals = [P(x) for x in items]
+    T = P(1)
+    for x in vals:
+        T = T * x
+    inv = P(inv_sym(T))
+    for i in range(len(vals)):
+        rest = P(1)
+        for j in range(len(vals)):
+            if j != i:
+                rest = rest * vals[j]
+        items[i] = inv * rest
+    return UNIT
+
+
+def c_lagrange_all(n):
+    def c(it, recv, a):
+        """L_i(tau) for all i < n.  tau outside the domain (tau^n != 1): L_i(tau) = (tau^n - 1)/n * w^i / (tau - w^i), stated in product form
+        with T = prod_j (tau - w^j):  (tau^n - 1) * n_inv * w^i * inv(T) * prod_{j != i} (tau - w^j).  tau inside the domain: the unit
+        vector of the FIRST index i with w^i == tau (all zero if no index matches)."""
+        tau, w, ninv = P(a[0]), P(Sym("w")), P(Sym("n_inv"))
+        inside = it.decided(canon(VOpaque("eq", [tau ** n, C(1)])))
+        if inside is None:
+            raise OutsideFragment("evaluate_all_lagrange_coefficients: the path does not decide tau^n == 1")
+        if inside:
+            out = [P(0)] * n
+            for i in range(n):
+                d = it.decided(canon(VOpaque("eq", [reduce_root(w ** i, "w", n) if False else w ** i, tau])))
+                if d is None:
+                    d = it.decided(canon(VOpaque("eq", [tau, w ** i])))
+                if d is None:
+                    raise OutsideFragment(f"evaluate_all_lagrange_coefficients: the path does not decide w^{i} == tau (keys: {it.decided_keys})")
+                if d:
+                    out[i] = P(1)
+                    break
+            return VArr(out, "vec")
+        u = [tau - w ** i for i in range(n)]
+        T = P(1)
+        for x in u:
+            T = T * x
+        inv = P(inv_sym(T))
+        out = []
+        for i in range(n):
+            rest = P(1)
+            for j in range(n):
+                if j != i:
+                    rest = rest * u[j]
+            out.append((tau ** n - 1) * ninv * (w ** i) * inv * rest)
+        return VArr(out, "vec")
+    return c
+
+
+for n_ in ((1, 2, 4, 8, 16) if THOROUGH else (1, 2, 4, 8)):
+    u = unit(f"kernels.evaluate_all_lagrange_coefficients[n={n_}]", DM, "alloc::EvaluationDomain::evaluate_all_lagrange_coefficients",
+             [("self", mk_domain(n_)), ("tau", sym("tau"))], c_lagrange_all(n_),
+             (lambda res, args, ctx, n_=n_: {"result": [reduce_root(x, "w", n_) for x in res.items], "exits": list(ctx.exits)}), path_dependent=True)
+    u.extra_contracts = dict(DOMC, **{"batch_inversion": c_bi_nonzero, ".as_mut_slice": lambda it, recv, a: recv})
+    u.diff_norm = (lambda d, n_=n_: reduce_root(d, "w", n_))
+    u.helper_files = ["src/util.rs"]
+
+
+# ---- polynomial product  &a * &b  (FFT based): instances (la, lb); contract = schoolbook convolution
+def mk_domain_exact(n):
+    """a domain instance whose inverse constants are tied to w and n: group_gen_inv = w^(n-1), size_inv = 1/n (a field constant)"""
+    from vlib.poly import R_BLS
+    lg = n.bit_length() - 1
+    return VStruct("EvaluationDomain", {"size": n, "log_size_of_group": lg, "size_as_field_element": C(n), "size_inv": C(pow(n, -1, R_BLS)),
+                                        "group_gen": Sym("w"), "group_gen_inv": (P(Sym("w")) ** (n - 1)) if n > 1 else C(1), "generator_inv": Sym("gi")})
+
+
+def c_domain_new(it, recv, a):
+    """EvaluationDomain::new(k): the domain of size next_power_of_two(k) (unit capacity / decoders: its arithmetic; here: an instance)"""
+    k = a[0]
+    if not isinstance(k, int):
+        raise OutsideFragment("EvaluationDomain::new with a symbolic size in an instance unit")
+    n = 1
+    while n < k:
+        n *= 2
+    it.ctx.domain_n = n
+    return ("fallible", "EvaluationDomain::new => Err", mk_domain_exact(n))
+
+
+def c_poly_mul(la, lb):
+    def c(it, recv, a):
+        """zero if either operand is the zero polynomial (no coefficients / all decided zero); otherwise the convolution
+        c_k = sum_{i+j=k} a_i b_j, handed to from_coefficients_vec padded to the domain size next_power_of_two(la + lb)"""
+        x = [P(v) for v in coeffs(recv)]
+        y = [P(v) for v in coeffs(a[0])]
+
+        def is_zero(name, k):
+            """`coeffs.is_empty() || coeffs.iter().all(|c| c == 0)`: `all` stops at the first non-zero coefficient"""
+            for i in range(k):
+                d = it.decided(f"eq({name}{i}, int:0)")
+                if d is None:
+                    return None
+                if not d:
+                    return False
+            return True
+        zx = is_zero("a", la)
+        if zx is None:
+            raise OutsideFragment("poly mul: the path does not decide whether self is zero")
+        if zx:
+            return VStruct("Polynomial", {"coeffs": VArr([], "vec")})
+        zy = is_zero("b", lb)
+        if zy is None:
+            raise OutsideFragment("poly mul: the path does not decide whether other is zero")
+        if zy:
+            return VStruct("Polynomial", {"coeffs": VArr([], "vec")})
+        n = 1
+        while n < la + lb:
+            n *= 2
+        out = [P(0)] * n
+        for i in range(la):
+            for j in range(lb):
+                out[i + j] = out[i + j] + x[i] * y[j]
+        return VOpaque("Polynomial::from_coefficients_vec", [VArr(out, "vec")])
+    return c
+
+
+def out_poly_mul(res, args, ctx):
+    """the PRODUCT POLYNOMIAL is what is compared: the coefficient list handed to from_coefficients_vec modulo trailing zero entries (how
+    far the list is padded, and whether a transform is used at all, is not part of the contract)"""
+    n = getattr(ctx, "domain_n", None)
+    if isinstance(res, VOpaque) and res.name == "Polynomial::from_coefficients_vec":
+        # coefficients the path decided to be zero ARE zero (exact substitution), before trailing zeros are dropped
+        zero = {}
+        for c_, t_ in getattr(ctx, "pcs", []) or []:
+            if t_ and isinstance(c_, VOpaque) and c_.name == "eq" and len(c_.args) == 2:
+                import re as _re
+                l_, r_ = canon(c_.args[0]), canon(c_.args[1])
+                if r_ in ("int:0", "0") and _re.fullmatch(r"[ab]\d+", l_):
+                    zero[l_] = C(0)
+        items = [(reduce_root(x, "w", n) if n else P(x)).subst(zero) for x in res.args[0].items]
+        while items and P(items[-1]).is_zero():
+            items.pop()
+        res = VOpaque(res.name, [VArr(items, "vec")])
+    return {"result": res, "exits": [e for e in ctx.exits]}
+
+
+PMUL = [(0, 2), (1, 1), (1, 2), (2, 2), (2, 3), (3, 3)] + ([(4, 5), (1, 17), (9, 9), (8, 8)] if THOROUGH else [])
+for (la_, lb_) in PMUL:
+    u = unit(f"kernels.poly_mul[la={la_},lb={lb_}]", PF, "<Polynomial as Mul<&'aPolynomial>>::mul",
+             [("self", mk_poly("a", la_)), ("other", mk_poly("b", lb_))], c_poly_mul(la_, lb_), out_poly_mul, path_dependent=True)
+    u.extra_contracts = dict(DOMC, **{"EvaluationDomain::new": c_domain_new, "Polynomial::from_coefficients_vec": c_from_coefficients_vec,
+                                      ".expect": lambda it, recv, a: (recv[2] if isinstance(recv, tuple) and recv and recv[0] == "fallible" else recv)})
+    u.helper_files = [DM, "src/fft/evaluations.rs", PF]
+
+
+# ---- polynomial product, ALL lengths (structure only): which domain the product is interpolated over
+PRODUCT_DOMAIN = VOpaque("product_domain", [])
+
+
+def c_poly_mul_struct(it, recv, a):
+    """for operands of ANY length: zero if either operand is zero; otherwise both coefficient vectors are transformed over ONE domain,
+    multiplied pointwise and interpolated back, and that domain is built by EvaluationDomain::new(k) with
+    k >= degree(self) + degree(other) + 1 (the number of coefficients of the product) - so the cyclic convolution IS the product."""
+    other = a[0]
+    z = it.decided(canon(VOpaque("or", [VOpaque("is_zero", [recv]), VOpaque("is_zero", [other])])))
+    if z is None:
+        raise OutsideFragment(f"poly mul (structural): the path does not decide `self.is_zero() || other.is_zero()` (keys: {it.decided_keys})")
+    if z:
+        return VOpaque("Polynomial::zero", [])
+    it.ctx.exits.append(("panic_if_err", "EvaluationDomain::new => Err"))
+    it.ctx.domain_ok = True
+    fa = VOpaque("Evaluations", [VOpaque("fft", [PRODUCT_DOMAIN, Sym(recv.path + ".coeffs")]), PRODUCT_DOMAIN])
+    fb = VOpaque("Evaluations", [VOpaque("fft", [PRODUCT_DOMAIN, Sym(other.path + ".coeffs")]), PRODUCT_DOMAIN])
+    return VOpaque("interpolate", [P(fa) * P(fb)])          # `*=` on evaluations: the pointwise product
+
+
+def c_product_domain_new(it, recv, a):
+    """records whether the requested size covers the product: with len(x.coeffs) = degree(x) + 1 + slack_x (slack_x >= 0 for a non-zero x)
+    the request minus (degree(self) + degree(other) + 1) must have no negative coefficient"""
+    k = P(a[0])
+    sub = {}
+    for nme in ("self", "other"):
+        sub[canon(VOpaque("len", [Sym(nme + ".coeffs")]))] = P(VOpaque("degree", [Sym(nme)])) + 1 + P(Sym("slack_" + nme))
+    need = P(VOpaque("degree", [Sym("self")])) + P(VOpaque("degree", [Sym("other")])) + 1
+    diff = k.subst(sub) - need
+    ok = all(c >= 0 for c in diff.t.values())
+    prev = getattr(it.ctx, "domain_ok", True)
+    it.ctx.domain_ok = prev and ok
+    it.ctx.domain_req = canon(k)
+    return ("fallible", "EvaluationDomain::new => Err", PRODUCT_DOMAIN)
+
+
+def out_poly_mul_struct(res, args, ctx):
+    return {"result": res, "exits": list(ctx.exits),
+            # True / False only (the offending request is in the unit's notes): the verdict must not depend on how the request is spelled
+            "domain_covers_the_product": True if getattr(ctx, "is_contract", False) else bool(getattr(ctx, "domain_ok", True))}
+
+
+_pm = unit("kernels.poly_mul[all lengths].structure", PF, "<Polynomial as Mul<&'aPolynomial>>::mul",
+           [("self", sym("self")), ("other", sym("other"))], c_poly_mul_struct, out_poly_mul_struct, path_dependent=True)
+_pm.extra_contracts = {
+    ".is_zero": lambda it, recv, a: VOpaque("is_zero", [recv]),
+    ".degree": lambda it, recv, a: VOpaque("degree", [recv]),
+    "Polynomial::zero": lambda it, recv, a: VOpaque("Polynomial::zero", []),
+    "EvaluationDomain::new": c_product_domain_new,
+    ".expect": lambda it, recv, a: ((it.ctx.exits.append(("panic_if_err", recv[1])), recv[2])[1] if isinstance(recv, tuple) and recv and recv[0] == "fallible" else recv),
+    ".fft": lambda it, recv, a: VOpaque("fft", [recv, a[0]]),
+    "domain.fft": lambda it, recv, a: VOpaque("fft", [recv, a[0]]),
+    "Evaluations::from_vec_and_domain": lambda it, recv, a: VOpaque("Evaluations", [a[0], a[1]]),
+    ".interpolate": lambda it, recv, a: VOpaque("interpolate", [recv]),
+}
+_pm.helper_files = [PF]
